@@ -942,3 +942,79 @@ func rulePARSE7(p *Program) *RuleResult {
 	}
 	return r
 }
+
+// PARSE8: the root-tracking state of the visitor is reset (clone()) exactly for
+// the second operand `Expression(1)` of a binary or indexer alternative; every
+// other child — in particular the inside of a parenthesised term — is visited
+// with the visitor itself, so that redundant parentheses cannot change how an
+// identifier resolves.
+func rulePARSE8(p *Program) *RuleResult {
+	r := newResult("PARSE8")
+	sp, err := p.Pkg("fhirpath/internal/parser")
+	if err != nil {
+		return r.anchorFail(err)
+	}
+	var clone *ssa.Function
+	for _, fn := range p.RepoFuncs() {
+		if fn.Pkg == sp && fn.Name() == "clone" && fn.Signature.Recv() != nil {
+			clone = fn
+		}
+	}
+	if clone == nil {
+		return r.anchorFail(fmt.Errorf("anchor: (*FHIRPathVisitor).clone not found"))
+	}
+	for _, fn := range p.RepoFuncs() {
+		if fn.Pkg != sp {
+			continue
+		}
+		n := 0
+		for _, b := range fn.Blocks {
+			for _, ins := range b.Instrs {
+				c, ok := ins.(*ssa.Call)
+				if !ok || c.Common().StaticCallee() != clone {
+					continue
+				}
+				n++
+				r.count("clone_sites", 1)
+				key := fmt.Sprintf("%s|clone#%d", short(fn), n)
+				okUse := c.Referrers() != nil
+				uses := 0
+				for _, ref := range *c.Referrers() {
+					if _, dbg := ref.(*ssa.DebugRef); dbg {
+						continue
+					}
+					uses++
+					vc, ok := ref.(*ssa.Call)
+					if !ok || vc.Common().StaticCallee() == nil || vc.Common().StaticCallee().Name() != "Visit" || len(vc.Common().Args) != 2 || vc.Common().Args[0] != ssa.Value(c) {
+						okUse = false
+						continue
+					}
+					// the visited child is ctx.Expression(1)
+					child := vc.Common().Args[1]
+					if mi, ok := child.(*ssa.MakeInterface); ok {
+						child = mi.X
+					}
+					if ci, ok := child.(*ssa.ChangeInterface); ok {
+						child = ci.X
+					}
+					ec, ok := child.(*ssa.Call)
+					if !ok || ec.Common().StaticCallee() == nil || ec.Common().StaticCallee().Name() != "Expression" || len(ec.Common().Args) != 2 {
+						okUse = false
+						continue
+					}
+					if k, ok := ec.Common().Args[1].(*ssa.Const); !ok || k.Value == nil || k.Value.ExactString() != "1" {
+						okUse = false
+					}
+				}
+				if okUse && uses > 0 {
+					r.ok(key, short(fn)+" resets the visitor only for its second operand Expression(1)", p.instrPos(ins), "the clone's only use is Visit(ctx.Expression(1))", true)
+				} else {
+					r.bad(key, short(fn)+" visits a child other than the second operand of a binary/indexer alternative with a reset visitor", p.instrPos(ins),
+						"the child is compiled as if it started a new expression: parentheses or term boundaries change how identifiers resolve, so two renderings of one tree evaluate differently")
+				}
+			}
+		}
+	}
+	r.floor("clone_sites", 8)
+	return r
+}
